@@ -228,7 +228,7 @@ pub fn mutate(t: &mut Tape, target: &Target, good: &[u8], nfds: usize) -> Reply 
         cuts: vec![],
         mutation: "none",
     };
-    let kind = t.draw(12);
+    let kind = t.draw(13);
     match kind {
         0 | 1 => {}
         2 => {
@@ -306,6 +306,17 @@ pub fn mutate(t: &mut Tape, target: &Target, good: &[u8], nfds: usize) -> Reply 
             r.fds_second = r.fds_first.max(1);
             r.fds_first = 0;
         }
+        12 => {
+            // a longer message that is consistent in itself: the header announces, and the
+            // stream carries, k more bytes than a reply to this request has
+            r.mutation = "grow";
+            if b.len() >= spec::HDR {
+                let k = t.range(1, 24) as usize;
+                let s = spec::g32(&b, 8).wrapping_add(k as u32);
+                b[8..12].copy_from_slice(&s.to_le_bytes());
+                b.extend_from_slice(&t.bytes(k));
+            }
+        }
         10 => {
             r.mutation = "random";
             let n = t.draw(64) as usize;
@@ -338,6 +349,12 @@ pub fn acceptable(target: &Target, bytes: &[u8], fds_first: usize) -> Option<Vec
     if h.code != target.code() || h.flags & spec::F_REPLY == 0 {
         return None;
     }
+    // "form a reply": a header of another protocol version or with reserved flag bits set is not
+    // a vhost-user message at all (the header rule of C20, whose consequence at the receivers
+    // this property is). The GPU channel's header has its own, laxer flag word.
+    if !matches!(target, Target::Gpu(_)) && (h.flags & 0x3 != spec::VERSION || h.flags & !0xf != 0) {
+        return None;
+    }
     // The property's conditions are: REPLY flag, same request code, valid body, descriptors
     // exactly when defined. Whether the header's size field must equal the body length is not
     // among them (don't-care): the body is the bytes that follow the header.
@@ -351,7 +368,11 @@ pub fn acceptable(target: &Target, bytes: &[u8], fds_first: usize) -> Option<Vec
             FReq::GetVringBase { .. } => fixed(8, 0),
             FReq::GetConfig { off, size, flags: _, .. } => {
                 let n = 12 + *size as usize;
+                // a reply with a payload is delimited by its header: the payload the header
+                // announces has to be the payload the configuration struct describes, or the
+                // surplus is left in the stream and parsed as the next message
                 if have >= n
+                    && h.size as usize == n
                     && fds_first == 0
                     && spec::g32(rest, 0) == *off
                     && spec::g32(rest, 4) == *size
